@@ -580,7 +580,10 @@ pub fn building(r: &mut Rng, o: &GenOpts) -> Spec {
         }
         if want_cogen {
             let cid = if g.r.chance(1, 2) { 0 } else { *g.r.pick(&ID_POOL) };
-            if g.r.chance(1, 4) {
+            if g.r.chance(1, 12) {
+                // fuel declared as cogeneration input but no cogenerated electricity declared at all (it is all sold
+                // outside the assessment, or simply missing): the fuel is still delivered energy and is weighted
+            } else if g.r.chance(1, 4) {
                 // two cogeneration units (possibly on different systems): their production adds up
                 let a: Vec<i64> = chp.iter().map(|x| g.qr(*x, 0.0, 1.0).min(*x)).collect();
                 let b: Vec<i64> = chp.iter().zip(a.iter()).map(|(x, y)| x - y).collect();
